@@ -4,7 +4,8 @@
 //   (c17 mode (schema S) parse-check (merged M|err) (gen (json J)|(panic)|(err)) (conv (schema C)|(error)|(panic)|(skipped)) (engine ok|(mismatch "…")|(skipped "…")) (features "f"…))
 // S is the generator-side tree (for corpus cases: the dump of the parsed document); parse-check is
 // `(parse ok)` when the dump of Go's parse of the emitted SDL equals S, the document carries no
-// extension and its root nodes come in the order schema / directives / types.
+// extension and its root nodes come in the order schema / directives / types; `(parse no-block)` is the
+// same for a document without schema definition (directives / types).
 // JSON object member order is Go's struct order (encoding/json), preserved by a token-level reader.
 package main
 
@@ -115,6 +116,7 @@ type result struct {
 	parsed    *sd.Schema
 	exts      int
 	orderOK   bool
+	noBlock   bool // no schema definition, otherwise in order
 	mergeErr  string
 	merged    *sd.Schema
 	genErr    string // "panic" | "err"
@@ -146,6 +148,26 @@ func rootOrderOK(doc *ast.Document) bool {
 	return len(doc.RootNodes) > 0 && doc.RootNodes[0].Kind == ast.NodeKindSchemaDefinition
 }
 
+// a document without schema definition (the default root operation type names apply): directive
+// definitions, then types
+func noBlockOrderOK(doc *ast.Document) bool {
+	stage := 0
+	for _, n := range doc.RootNodes {
+		switch n.Kind {
+		case ast.NodeKindSchemaDefinition:
+			return false
+		case ast.NodeKindDirectiveDefinition:
+			if stage > 1 {
+				return false
+			}
+			stage = 1
+		default:
+			stage = 2
+		}
+	}
+	return len(doc.RootNodes) > 0
+}
+
 func pipeline(sdl string) *result {
 	r := &result{}
 	doc, report := astparser.ParseGraphqlDocumentString(sdl)
@@ -155,6 +177,7 @@ func pipeline(sdl string) *result {
 	}
 	r.parsed, r.exts = sd.FromDocument(&doc)
 	r.orderOK = rootOrderOK(&doc)
+	r.noBlock = noBlockOrderOK(&doc)
 	if p := guard(func() {
 		if err := asttransform.MergeDefinitionWithBaseSchema(&doc); err != nil {
 			r.mergeErr = err.Error()
@@ -215,6 +238,8 @@ func observe(mode string, s *sd.Schema, sdl string, feats map[string]int, withEn
 	}
 	if res.exts > 0 {
 		parseCheck = common.L("parse", "extensions")
+	} else if res.noBlock && parseCheck == "(parse ok)" {
+		parseCheck = "(parse no-block)" // the model is run with blk = false
 	} else if !res.orderOK {
 		parseCheck = common.L("parse", "root-order")
 	}
@@ -316,7 +341,15 @@ func main() {
 			if mode == "malformed" {
 				feats["malformed_"+malform(r, s)]++
 			}
-			sdl := s.SDL(&sd.SDLOpts{R: r, SchemaBlock: true})
+			// 1 in 8: the same types as a document without schema definition -- no root is declared, the
+			// default root operation type names (Query / Mutation / Subscription) apply
+			block := true
+			if mode != "malformed" && s.Query == "Query" && r.Chance(1, 8) {
+				block = false
+				s.Query, s.Mutation, s.Subscription = "", "", ""
+				feats["no_schema_definition"]++
+			}
+			sdl := s.SDL(&sd.SDLOpts{R: r, SchemaBlock: block})
 			out.Line(observe(mode, s, sdl, feats, every > 0 && i%every == 0, r))
 		}
 	case "corpus":
